@@ -6,4 +6,7 @@ python3-vt -c "import z3, cvc5, numpy"
 /venv/bin/python -c "import emsarray, numpy, xarray, shapely"
 python3-vt -m compileall -q pyvc contracts props >/dev/null 2>&1 || true
 mkdir -p evidence replays
+# executor-vs-CPython self-check: the verifier and its library models must agree with the real code on concrete inputs
+python3-vt tools/selfcheck.py > evidence/.selfcheck.log 2>&1 || { cat evidence/.selfcheck.log; echo 'setup failed: executor disagrees with CPython'; exit 3; }
+tail -1 evidence/.selfcheck.log
 echo "setup ok"
